@@ -256,6 +256,14 @@ fn check_item(it: &Item) -> Report {
     } else {
         chk.rep.errors.push(format!("{}: no path where interp_array answered", s.name()));
     }
+    // translator validation: the agreement statements also hold natively at f64 on generic values
+    if chk.rep.findings.is_empty() && !it.symbolic_queries {
+        let (bad, what) = native_agreement(s);
+        chk.rep.validations += 1;
+        if bad {
+            chk.rep.errors.push(format!("{}: native f64 run disagrees although the symbolic run agrees: {what} (translator validation)", s.name()));
+        }
+    }
     // canary: with >= 2 distinct queries, element 0 of the batch must differ from the single-call result of element 1
     if nq >= 2 && lanes >= 1 {
         if let Some(Ok(Ok(c))) = paths.iter().map(|p| &p.result).find(|r| matches!(r, Ok(Ok(c)) if c.array.is_ok() && c.single.iter().all(|s| s.is_ok()))) {
